@@ -446,6 +446,7 @@ func (m SmallMap) Delete(key Object) (Map, bool) {
 		m.smallKV[i] = m.smallKV[i+1]
 	}
 	m.len--
+	m.smallKV[m.len] = keyValuePair{} // no stale entry past len: small maps are compared and hashed as Go values.
 	return m, true
 }
 
